@@ -89,9 +89,7 @@ func c01UDP(p c01SockPlan) *common.Fail {
 		if _, m := isMarker(want); good && m {
 			continue // would be mistaken for a marker
 		}
-		if len(b) > 0 {
-			pc.WriteToUDP(b, caddr)
-		}
+		pc.WriteToUDP(b, caddr) // an empty item is an empty datagram
 		marker := markerFrame(i + 1)
 		pc.WriteToUDP(marker, caddr)
 		var before []knxnet.Service
@@ -244,6 +242,10 @@ loop:
 // keepFraming: the result stays a self-consistent TCP unit (header total length is fixed up).
 func mutateFrame(rt *rapid.T, b []byte, lens []common.LenField, keepFraming bool) []byte {
 	out := append([]byte{}, b...)
+	if !keepFraming && rapid.IntRange(0, 7).Draw(rt, "runt") == 0 {
+		// a datagram shorter than the header, down to the empty datagram (legal on UDP: the read returns 0 bytes, no error)
+		return out[:rapid.SampledFrom([]int{0, 0, 1, 3, 5}).Draw(rt, "runt-len")]
+	}
 	switch rapid.IntRange(0, 5).Draw(rt, "mut") {
 	case 0: // truncate
 		if len(out) > 6 {
